@@ -355,7 +355,25 @@ class Runner:
                         if isinstance(rb, dict) and "crashed" not in rb:
                             hit = next((x for x in rb["violations"] if x["index"] == v["index"]), None)
                         if hit is None:
-                            raise core.HarnessError("%s violation %s (history %d) did not reproduce in a fresh process, neither alone nor as part of its batch" % (PROP, vclass, v["index"]))
+                            # second attempt: the batch exactly as the worker ran it (full length, same progress file use)
+                            rb = self.iso("batch_entry", seed, frm, per, os.path.join(build.CACHE, "progress-retry-%d" % os.getpid()))
+                            if isinstance(rb, dict) and "crashed" not in rb:
+                                hit = next((x for x in rb["violations"] if x["index"] == v["index"]), None)
+                                if hit is not None:
+                                    cnt_to = per
+                        if hit is None:
+                            # The unchanged tree is deterministic (self-test), so a violation that one worker observed but that no
+                            # fresh process shows again means the code under test itself behaves nondeterministically (reads of
+                            # freed memory that depend on the allocator's cache state, ...).  The in-process observation is reported
+                            # as it was seen; its replay file re-tries history and batch several times.
+                            rep = {"property": PROP, "setup": v["history"]["setup"], "ops": v["history"]["ops"], "violation": viol, "nondeterministic": True,
+                                   "batch": [seed, frm, per], "index": v["index"],
+                                   "note": "observed by a batch worker (live result vs fresh-context twin in the same process); not reproducible in fresh processes",
+                                   "how_to_replay": "./check %s --replay <this file>   (re-tries; exit 1 if any attempt shows it again)" % PROP}
+                            path = core.save_replay(PROP, "%s-%d-nondeterministic-%s" % (seed, v["index"], vclass.replace("/", "_")[:40]), rep)
+                            self.log("[%s] violation %s at history %d was observed once but does not reproduce in fresh processes (nondeterministic code under test): %s" % (PROP, vclass, v["index"], path))
+                            new_violations.append(path)
+                            continue
                         rep = {"property": PROP, "batch": [seed, frm, cnt_to], "index": v["index"], "violation": hit["violations"][0],
                                "history": v["history"], "note": "reproduces only as part of its batch (process-history dependent)",
                                "how_to_replay": "./check %s --replay <this file>" % PROP}
@@ -451,6 +469,19 @@ class Runner:
     def replay(self, path):
         with open(path) as f:
             h = json.load(f)
+        if h.get("nondeterministic"):
+            seed, frm, cnt_to = h["batch"]
+            for attempt in range(3):
+                r = self.execute_iso({"setup": h["setup"], "ops": h["ops"]})
+                if r["violations"]:
+                    print("VIOLATION property=%s replay=%s class=%s (attempt %d, history alone)" % (self.mod.PROP, path, r["violations"][0]["class"], attempt + 1))
+                    sys.exit(1)
+                rb = self.iso("batch_entry", seed, frm, cnt_to, None)
+                if isinstance(rb, dict) and ("crashed" in rb or any(x["index"] == h["index"] for x in rb["violations"])):
+                    print("VIOLATION property=%s replay=%s class=%s (attempt %d, batch)" % (self.mod.PROP, path, (h.get("violation") or {}).get("class"), attempt + 1))
+                    sys.exit(1)
+            print("OK replay passes (the recorded observation was nondeterministic: 6 attempts did not show it again)")
+            sys.exit(0)
         if h.get("batch"):
             seed, frm, cnt_to = h["batch"]
             rb = self.iso("batch_entry", seed, frm, cnt_to, None)
